@@ -145,25 +145,6 @@ ReadbackUnrounded ==
 \* "and is less than one granule away from the target's demand"
 ReadbackWithinGranule == act.name = "Read" => Abs(ret - tdemand) < par.g
 
-\* "so n increments of 1 have the same effect as one increment of n": a pure
-\* re-computation of `std.demand += k` from the current state, n times 1 versus once n.
-ReadVal(t, s) == IF Abs(s - t) >= par.g THEN t ELSE s
-WriteRes(v) == [s |-> Clamp(par, supply, v),
-                t |-> IF par.g # ONE THEN Clamp(par, supply, Floor(v, par.g)) ELSE Clamp(par, supply, v)]
-Incr(st, n) == WriteRes(ReadVal(st.t, st.s) + n * ONE)
-RECURSIVE IncrTimes(_, _)
-IncrTimes(st, n) == IF n = 0 THEN st ELSE IncrTimes(Incr(st, 1), n - 1)
-IncrementsCompose ==
-    fresh => \A n \in 1..3 : IncrTimes([t |-> tdemand, s |-> sdemand], n).s
-                             = Incr([t |-> tdemand, s |-> sdemand], n).s
-\* the forwarded value may differ only by what the limits cut off; where nothing
-\* interferes it is the floor of the same unrounded value in both cases
-IncrementsComposeTarget ==
-    fresh => \A n \in 1..3 :
-        LET a == IncrTimes([t |-> tdemand, s |-> sdemand], n)
-            b == Incr([t |-> tdemand, s |-> sdemand], n)
-        IN a.t = b.t
-
 TypeOK == /\ par \in ParamSet
           /\ fresh \in BOOLEAN
 =============================================================================
